@@ -418,6 +418,18 @@ def main():
                         log.append([bool(u), float(lib.engineexport_get_time())])
                         done = not u
                     res["ret"] = {"log": log[-50:], "ncalls": len(log), "complete": done}
+                elif k == "simulate_cg":
+                    # the package's driver with a coarse-graining index map (refused maps raise: reported as "raised")
+                    from strengths.simulate import simulate_script
+                    si = c["script"]
+                    if si not in scripts:
+                        scripts[si] = build_script(job["scripts"][si])
+                    try:
+                        last_out = simulate_script(scripts[si], e, cgmap=[int(v) for v in c["cgmap"]])
+                    finally:
+                        take_init(e, res)
+                    live = False
+                    res["ret"] = traj_json(last_out, full=False)
                 elif k in ("simulate", "resim"):
                     # the package's own driver (simulate_script: run(1000) slices, get_output, finalize)
                     from strengths.simulate import simulate_script
